@@ -50,7 +50,8 @@ def search(chk, broken):
         if chk.over():
             break
         cfg = sg.gen_config(rng, 0.8)
-        for k in ('cMinimumVelocity', 'cMaximumDrop', 'cMinimumAltitude', 'cGravityConstant'):
+        # (a lowered iteration cap can make any zeroing fail: "does not fail for reachable targets" is about the default cap)
+        for k in ('cMinimumVelocity', 'cMaximumDrop', 'cMinimumAltitude', 'cGravityConstant', 'cMaxIterations'):
             cfg.pop(k, None)
         calc = pbc.Calculator(_config=cfg)
         full = pbc.interface_config.create_interface_config(cfg)
